@@ -3,6 +3,7 @@ import CobyqaVerif.Props.C04
 import CobyqaVerif.Alg.Tcg
 import CobyqaVerif.Alg.TcgImproveFast
 import CobyqaVerif.Alg.Cauchy
+import CobyqaVerif.Alg.CauchyDir
 import CobyqaVerif.Alg.Spider
 import CobyqaVerif.Model.Arith
 /-!
@@ -336,6 +337,23 @@ def doCauchy (n : ℕ) (parts : List String) : String :=
     | _, _, _, _, _, _, _, _, _ => "bad-op"
   | _ => "bad-op"
 
+/-- `cauchy2 n fuel | const ; g ; H ; xl ; xu ; delta`: `cauchy_geometry` as a whole (Alg/CauchyDir.lean `cauchyFull`:
+initial active set, corner, rescaling loop, then Alg/Cauchy.lean); `np.sqrt` as the binary64 square root of the exact
+argument -/
+def doCauchy2 (n fuel : ℕ) (parts : List String) : String :=
+  match parts with
+  | [k, g, H, lo, hi, d] =>
+    match ratsOf k, ratsOf g, ratsOf H, optsOf lo, optsOf hi, ratsOf d with
+    | some k, some g, some H, some lo, some hi, some d =>
+      if k.size ≠ 1 || g.size ≠ n || H.size ≠ n * n || lo.size ≠ n || hi.size ≠ n || d.size ≠ 1 then "bad-op" else
+      let P : Cobyqa.Cauchy.GProb n Rat :=
+        { const := k[0]!, g := vecOf g, H := fun i j => H[i.val * n + j.val]!, xl := fun i => lo[i.val]!, xu := fun i => hi[i.val]!, delta := d[0]! }
+      let D : Cobyqa.Cauchy.DParams Rat := { sqrtO := fun x => floatToRat (Float.sqrt (ratToFloat x)), tiny := 0 }
+      let st := Cobyqa.Cauchy.cauchyFull P D fuel
+      "ok " ++ " ".intercalate ((listFin n).map fun i => showRat (st i))
+    | _, _, _, _, _, _ => "bad-op"
+  | _ => "bad-op"
+
 /-! `spider n p | const ; g ; H ; xl ; xu ; delta ; xpt (p lines of n) ; norms (p)`  -> `ok step..`: `Cobyqa.Spider.spider` -/
 def doSpider (n p : ℕ) (parts : List String) : String :=
   match parts with
@@ -366,6 +384,7 @@ def handleAlg (line : String) : String :=
       | some n, some f, some f2 => doTcg2 n f f2 (imp == "1") parts
       | _, _, _ => "bad-op"
     | ["cauchy", n] => match n.toNat? with | some n => doCauchy n parts | _ => "bad-op"
+    | ["cauchy2", n, fuel] => match n.toNat?, fuel.toNat? with | some n, some f => doCauchy2 n f parts | _, _ => "bad-op"
     | ["spider", n, p] => match n.toNat?, p.toNat? with | some n, some p => doSpider n p parts | _, _ => "bad-op"
     | ["ball", n] => match n.toNat? with | some n => doBall n parts | _ => "bad-op"
     | _ => "bad-op"
